@@ -203,6 +203,8 @@ def _arith_root(anc):
             break
         if isinstance(n, (ast.BinOp, ast.UnaryOp)):
             best = k
+        elif best is None and isinstance(n, (ast.Name, ast.Attribute, ast.Constant)):
+            continue  # the leaf's own node (a name's identifier, an attribute's name)
         else:
             break
     return best
@@ -286,6 +288,26 @@ def rule_token(ctx, rid):
                 continue
             tr = _test_root(anc)
             stmt_new = next((n for n, f in reversed(anc) if isinstance(n, ast.stmt)), None)
+            why_ = ctx.explained.get((fi.qualname, getattr(stmt_new, 'lineno', -1)))
+            if why_:
+                r.ok(k2, common.site_of(fi, stmt_new), 'decided by a rule of this property: ' + why_)
+                continue
+            at_ = next((n for n, f in reversed(anc[-2:]) if isinstance(n, ast.Attribute)), None)
+            if kind == 'name' and at_ is not None and at_.attr in ('__setattr__', '__delattr__') and isinstance(b, str) and stmt_new is not None:
+                # the exact pre-pass that resolves `C.__setattr__` to object's (no class of C's MRO defines it) has read this one
+                mark = '%s:%d %s.%s resolves to object.' % (fi.module.relpath, at_.lineno, b, at_.attr)
+                if any(l_.startswith(mark) for l_ in getattr(ctx.repo, 'desugar_log', []) or []):
+                    r.ok(k2, common.site_of(fi, stmt_new), 'resolved by the MRO: ' + mark.split(' ', 1)[1] + 'the same slot')
+                    continue
+            if _struct_format(anc, a, b):
+                r.ok(k2, common.site_of(fi, stmt_new) if stmt_new is not None else fi.site, 'with a byte-order prefix the struct codes L/I (and l/i) are the same four-byte field')
+                continue
+            if _whole_reversal(anc, a, b):
+                r.ok(k2, fi.site, 'with a step of -1 a lower bound of -1 is no lower bound')
+                continue
+            if kind == 'const' and _truthiness_only(ctx.repo, anc, a, b):
+                r.ok(k2, common.site_of(fi, stmt_new) if stmt_new is not None else fi.site, 'the callee only tests the truth of this argument, and both constants have the same truth value')
+                continue
             if tr is not None:
                 holder, field, k = tr
                 new_test = getattr(holder, field)
@@ -298,10 +320,22 @@ def rule_token(ctx, rid):
                         e1 = _Folder(ctx.repo, fi.module, fi.cls, None).visit(_copy(old_test))
                         e2 = _Folder(ctx.repo, fi.module, fi.cls, None).visit(_copy(new_test))
                         v = equiv(e1, e2)
+                        if v is not True and stmt_new is not None:
+                            # locals that are plain copies of a parameter or constant, written out on both sides
+                            old_stmt_ = _counterpart(old, cur, stmt_new)
+                            if old_stmt_ is not None:
+                                c1 = _Folder(ctx.repo, fi.module, fi.cls, None).visit(_copyprop(old, old_test, old_stmt_))
+                                c2 = _Folder(ctx.repo, fi.module, fi.cls, None).visit(_copyprop(cur, new_test, stmt_new))
+                                if equiv(c1, c2) is True:
+                                    v = True
                         if v is not True:
                             for c_ in _constraints(cur):
                                 if c_.split(' <= ')[0] in ast.unparse(e2) and equiv('(%s) and (%s)' % (ast.unparse(e1), c_), '(%s) and (%s)' % (ast.unparse(e2), c_)) is True:
                                     v = True
+                        if v is not True:
+                            from .rules import canon_arith_strict
+                            if canon_arith_strict(e1) == canon_arith_strict(e2):
+                                v = True  # the same value, not just the same truth value
                         if v is not True and dom:
                             d_ = {t: rng for t, rng in dom.items() if t in ast.unparse(e1) or t in ast.unparse(e2)}
                             if d_ and equiv(e1, e2, domain=d_) is True:
@@ -311,6 +345,20 @@ def rule_token(ctx, rid):
                     if v is not True:
                         try:
                             t1, t2 = ast.unparse(old_test), ast.unparse(new_test)
+                            try:
+                                t1, t2 = ast.unparse(e1), ast.unparse(e2)  # constants written out, as in the path condition
+                            except Exception:
+                                pass
+                            # the path condition is read off the analysed tree (parent links, pre-passes applied)
+                            holder_ = holder if isinstance(holder, ast.stmt) else stmt_new
+                            holder_ = _counterpart_in_repo(ctx.repo, fi, cur, holder_) if holder_ is not None else None
+                            if holder_ is not None and isinstance(holder_, ast.stmt) and not isinstance(holder, ast.stmt):
+                                # a test inside an expression: the operands before it in an and/or chain count too
+                                sub_ = _counterpart_in_repo(ctx.repo, fi, cur, new_test)
+                                holder_ = sub_ if sub_ is not None else holder_
+                            if holder_ is None:
+                                raise ValueError('no counterpart')
+                            holder = holder_
                             if implied_at(ctx.repo, fi, holder, '(not (%s)) or (%s)' % (t1, t2)) is True and implied_at(ctx.repo, fi, holder, '(not (%s)) or (%s)' % (t2, t1)) is True:
                                 v = True
                         except Exception:
@@ -344,7 +392,7 @@ def rule_token(ctx, rid):
                 new_e = anc[ar][0]
                 old_e = _counterpart(old, cur, new_e)
                 try:
-                    from .rules import canon_arith
+                    from .rules import canon_arith_strict as canon_arith
                     if old_e is not None and canon_arith(old_e) == canon_arith(new_e):
                         r.ok(k2, fi.site, 'the arithmetic expression has the same normal form as the confirmed one')
                         continue
@@ -359,6 +407,136 @@ def rule_token(ctx, rid):
                 continue
             r.undecided(k2, common.site_of(fi, stmt_new) if stmt_new is not None else fi.site, 'one token of `%s` in %s changed (%s) and no rule of this property reads it'
                         % (norm(stmt_new)[:70] if stmt_new is not None else '?', fi.name, what))
+
+
+def _copyprop(fn, expr, at):
+    """`expr` (standing in statement `at` of function `fn`) with the locals that are plain copies written out: a name
+    assigned exactly once in the function, by `x = <name or constant>` in a block that encloses `at` and before it, where
+    the copied name is itself never assigned in the function (a parameter, a global)"""
+    stores = {}
+    for n in ast.walk(fn):
+        if isinstance(n, ast.Name) and isinstance(n.ctx, (ast.Store, ast.Del)):
+            stores[n.id] = stores.get(n.id, 0) + 1
+        elif isinstance(n, (ast.Global, ast.Nonlocal)):
+            for nm in n.names:
+                stores[nm] = stores.get(nm, 0) + 2
+    path = _path_to(fn, at)
+    if path is None:
+        return expr
+    defs = {}
+    cur = fn
+    for f, i in path:
+        v = getattr(cur, f, None)
+        if i is None:
+            cur = v
+            continue
+        if f in ('body', 'orelse', 'finalbody') and isinstance(v, list) and v and isinstance(v[0], ast.stmt):
+            v = _strip_doc(v)
+            v = [s for s in v if not isinstance(s, ast.Pass)] if len(v) > 1 else v
+            for s in v[:i]:
+                if isinstance(s, ast.Assign) and len(s.targets) == 1 and isinstance(s.targets[0], ast.Name) and stores.get(s.targets[0].id) == 1:
+                    val = s.value
+                    if isinstance(val, ast.Constant) or (isinstance(val, ast.Name) and val.id not in stores):
+                        defs[s.targets[0].id] = val
+        cur = v[i] if isinstance(v, list) and i < len(v) else None
+        if cur is None:
+            break
+    if not defs:
+        return expr
+
+    class S(ast.NodeTransformer):
+        def visit_Name(self, n):
+            if isinstance(n.ctx, ast.Load) and n.id in defs:
+                return ast.copy_location(ast.parse(ast.unparse(defs[n.id]), mode='eval').body, n)
+            return n
+    return ast.fix_missing_locations(S().visit(ast.parse(ast.unparse(expr), mode='eval').body))
+
+
+def _struct_format(anc, a, b):
+    """a format string of a struct call that differs only in L/I or l/i under an explicit byte order"""
+    if not (isinstance(a, ast.Constant) and isinstance(b, ast.Constant) and type(a.value) is type(b.value) and isinstance(a.value, (bytes, str))):
+        return False
+    call = next((n for n, f in reversed(anc) if isinstance(n, ast.Call)), None)
+    if call is None or not call.args or call.args[0] is not b:
+        return False
+    fn = ast.unparse(call.func)
+    if fn not in ('struct.pack', 'struct.unpack', 'struct.unpack_from', 'struct.pack_into', 'struct.calcsize', 'struct.Struct', 'struct.iter_unpack'):
+        return False
+    fa = a.value.decode('latin1') if isinstance(a.value, bytes) else a.value
+    fb = b.value.decode('latin1') if isinstance(b.value, bytes) else b.value
+    if fa[:1] not in '<>=!' or fa[:1] != fb[:1] or not fa:
+        return False
+    nrm = lambda s_: s_.replace('L', 'I').replace('l', 'i')
+    return nrm(fa) == nrm(fb)
+
+
+def _whole_reversal(anc, a, b):
+    """x[-1::-1] and x[::-1]"""
+    if not (anc and isinstance(anc[-1][0], ast.Slice) and anc[-1][1] == 'lower'):
+        return False
+    sl = anc[-1][0]
+    def minus_one(e):
+        return isinstance(e, ast.UnaryOp) and isinstance(e.op, ast.USub) and isinstance(e.operand, ast.Constant) and e.operand.value == 1
+    none = lambda e: e is None or (isinstance(e, ast.Constant) and e.value is None)
+    if not (sl.step is not None and minus_one(sl.step) and sl.upper is None):
+        return False
+    return (none(a) and minus_one(b)) or (minus_one(a) and none(b))
+
+
+def _truthiness_only(repo, anc, a, b):
+    """a constant argument of a call replaced by another constant of the same truth value, where every function of that
+    name in the library only ever tests the truth of the parameter"""
+    if not (isinstance(a, ast.Constant) and isinstance(b, ast.Constant)) or bool(a.value) != bool(b.value):
+        return False
+    if not all(v is None or isinstance(v, (bool, int)) for v in (a.value, b.value)):
+        return False
+    if not anc or not isinstance(anc[-1][0], (ast.Call, ast.keyword)):
+        return False
+    if isinstance(anc[-1][0], ast.keyword):
+        kw = anc[-1][0].arg
+        call = anc[-2][0] if len(anc) > 1 and isinstance(anc[-2][0], ast.Call) else None
+        pos = None
+    else:
+        call, kw = anc[-1][0], None
+        if anc[-1][1] != 'args':
+            return False
+        pos = next((i for i, x in enumerate(call.args) if x is b), None)
+        if pos is None or any(isinstance(x, ast.Starred) for x in call.args[:pos + 1]):
+            return False
+    if call is None or kw is None and pos is None:
+        return False
+    name = call.func.attr if isinstance(call.func, ast.Attribute) else call.func.id if isinstance(call.func, ast.Name) else None
+    cands = [g for g in repo.functions.values() if g.name == name]
+    if not name or not cands:
+        return False
+    for g in cands:
+        params = list(g.params)
+        bound = isinstance(call.func, ast.Attribute) and g.cls is not None and params[:1] and params[0] in ('self', 'cls')
+        if kw is not None:
+            p = kw if kw in params else None
+        else:
+            k = pos + (1 if bound else 0)
+            p = params[k] if k < len(params) else None
+        if p is None:
+            return False
+        par = {}
+        for n in ast.walk(g.node):
+            for c in ast.iter_child_nodes(n):
+                par[id(c)] = n
+        def boolean(n):
+            up = par.get(id(n))
+            if isinstance(up, (ast.If, ast.While, ast.IfExp, ast.Assert)) and up.test is n:
+                return True
+            if isinstance(up, ast.UnaryOp) and isinstance(up.op, ast.Not):
+                return True
+            if isinstance(up, ast.BoolOp):
+                return boolean(up)
+            return False
+        for n in ast.walk(g.node):
+            if isinstance(n, ast.Name) and n.id == p:
+                if not isinstance(n.ctx, ast.Load) or not boolean(n):
+                    return False
+    return True
 
 
 def _without_renames(diffs, old):
